@@ -36,6 +36,7 @@ def add_clip_vars(w: dict, rng: random.Random) -> None:
     rng.shuffle(d)
     add("ifill", "face", d, "i4", fill=-99, fillattr="_FillValue")
     add("imiss", "face", g + ["t"], "i2", fill=-7, fillattr="missing_value")
+    add("izero", "face", list(g), "i2", fill=0, fillattr="_FillValue")        # zero is a legitimate fill value
     add("iplain", "face", list(reversed(g)), "i8")
     for kind in W.kinds_of(w):
         if kind != "face":
@@ -115,7 +116,8 @@ def clip_worlds(tier: str, seed: int) -> list[dict]:
         else:
             m = W.random_mesh(rng, rng.randint(3, 6), rng.randint(2, 5), shape=rng.choice(["rect", "skew"]))
         m = meshtabs.supplied_tables(m, rng)
-        has_edge = bool(set(sup) & {"en", "ef", "fe"}) or rng.random() < .3
+        # (face-face connectivity on a mesh WITHOUT any edge dimension must exist too: FVCOM-style output)
+        has_edge = bool(set(sup) & {"en", "ef", "fe"}) or (sup != ["ff"] and rng.random() < .3)
         # data on edges (and the clauses about edge tables) need a defined edge numbering: edge-node supplied
         edge_defined = "en" in sup
         enc = {"base": k % 2, "fill": ["intfill", "nan", "none"][k % 3], "supplied": sup,
